@@ -73,6 +73,21 @@ type Ctx struct {
 	isWorker       bool
 	shardK, shardN int
 	workerOut      string
+	traceFile      *os.File
+	// OnCrash, if set, turns a crashed or hung worker into a verdict: it receives the
+	// last case index the worker announced through Trace (re-run in trace mode) and the
+	// tail of its stderr.
+	OnCrash func(lastCase int64, detail string)
+}
+
+// Trace announces the case about to be evaluated; it is a no-op unless the worker
+// was restarted in trace mode after a crash or hang.
+func (c *Ctx) Trace(idx int64) {
+	if c.traceFile != nil {
+		var b [8]byte
+		binary.LittleEndian.PutUint64(b[:], uint64(idx))
+		_, _ = c.traceFile.WriteAt(b[:], 0)
+	}
 }
 
 func newCtx(id, tier, level string) *Ctx {
@@ -417,6 +432,11 @@ func runWorker(id, tier string, k, n int, out string) {
 	}
 	c := newCtx(id, tier, def.level)
 	c.isWorker, c.shardK, c.shardN, c.workerOut = true, k, n, out
+	if tf := os.Getenv("VERIF_TRACE_FILE"); tf != "" {
+		if f, err := os.OpenFile(tf, os.O_CREATE|os.O_RDWR, 0o644); err == nil {
+			c.traceFile = f
+		}
+	}
 	if s := os.Getenv("VERIF_DEADLINE_UNIX"); s != "" {
 		if v, err := strconv.ParseInt(s, 10, 64); err == nil {
 			c.deadline = time.Unix(v, 0)
@@ -457,12 +477,60 @@ func (c *Ctx) Sharded(n int, body func(i int)) {
 		go func(k int) {
 			defer wg.Done()
 			out := filepath.Join(tmp, fmt.Sprintf("%s-%d-%d.json", c.ID, os.Getpid(), k))
-			cmd := exec.Command(os.Args[0], "worker", c.ID, c.Tier, strconv.Itoa(k), strconv.Itoa(N), out)
-			cmd.Env = append(os.Environ(), "GOMAXPROCS=2", "VERIF_DEADLINE_UNIX="+strconv.FormatInt(c.deadline.Unix(), 10))
-			cmd.Stderr = os.Stderr
-			cmd.Stdout = os.Stderr
-			if err := cmd.Run(); err != nil {
-				errs[k] = fmt.Errorf("worker %d: %v", k, err)
+			run := func(trace string, limit time.Duration) (error, string) {
+				cmd := exec.Command(os.Args[0], "worker", c.ID, c.Tier, strconv.Itoa(k), strconv.Itoa(N), out)
+				cmd.Env = append(os.Environ(), "GOMAXPROCS=2", "VERIF_DEADLINE_UNIX="+strconv.FormatInt(c.deadline.Unix(), 10))
+				if trace != "" {
+					cmd.Env = append(cmd.Env, "VERIF_TRACE_FILE="+trace)
+				}
+				var tail tailBuffer
+				cmd.Stderr = &tail
+				cmd.Stdout = &tail
+				if err := cmd.Start(); err != nil {
+					return err, ""
+				}
+				done := make(chan error, 1)
+				go func() { done <- cmd.Wait() }()
+				select {
+				case err := <-done:
+					return err, tail.String()
+				case <-time.After(limit):
+					_ = cmd.Process.Kill()
+					<-done
+					return fmt.Errorf("worker exceeded the hang guard of %s", limit), tail.String()
+				}
+			}
+			guard := time.Until(c.deadline) + 2*time.Minute
+			t0 := time.Now()
+			err, tail := run("", guard)
+			if err != nil {
+				if c.OnCrash == nil {
+					os.Stderr.WriteString(tail)
+					errs[k] = fmt.Errorf("worker %d: %v", k, err)
+					return
+				}
+				// re-run in trace mode to learn which case crashes or hangs
+				tf := out + ".trace"
+				_ = os.Remove(tf)
+				limit2 := 3*time.Since(t0) + time.Minute
+				if limit2 > guard {
+					limit2 = guard
+				}
+				err2, tail2 := run(tf, limit2)
+				last := int64(-1)
+				if b, e := os.ReadFile(tf); e == nil && len(b) >= 8 {
+					last = int64(binary.LittleEndian.Uint64(b[:8]))
+				}
+				_ = os.Remove(tf)
+				if err2 == nil {
+					errs[k] = fmt.Errorf("worker %d failed (%v) but succeeded in trace mode: not reproducible", k, err)
+					return
+				}
+				if len(tail2) > 1500 {
+					tail2 = tail2[:1500]
+				}
+				c.OnCrash(last, fmt.Sprintf("%v; %s", err2, tail2))
+				results[k] = &workerResult{Exhaustive: false, Notes: []string{"a worker crashed or hung; its shard was not completed"}}
 				return
 			}
 			data, err := os.ReadFile(out)
@@ -558,4 +626,25 @@ func paramStr(rp *Replay, key string) string {
 		return v
 	}
 	return ""
+}
+
+// tailBuffer keeps the first 64 KiB written to it (enough for a Go crash header).
+type tailBuffer struct {
+	mu sync.Mutex
+	b  []byte
+}
+
+func (t *tailBuffer) Write(p []byte) (int, error) {
+	t.mu.Lock()
+	if len(t.b) < 65536 {
+		t.b = append(t.b, p...)
+	}
+	t.mu.Unlock()
+	return len(p), nil
+}
+
+func (t *tailBuffer) String() string {
+	t.mu.Lock()
+	defer t.mu.Unlock()
+	return string(t.b)
 }
